@@ -10,8 +10,8 @@ from __future__ import annotations
 import ast
 
 from ..cfg import cfg_of
-from ..flow import flow_of, path_of
-from ..loader import FUNC, AnalysisError, dotted, last_name, loc, short, walk_local
+from ..flow import deref, flow_of, path_of
+from ..loader import FUNC, AnalysisError, dotted, enclosing_stmt, last_name, loc, short, walk_local
 from ..util import ENGBASE, ORDERP, PATH, kwarg
 from ..variants import B, K
 
@@ -750,6 +750,58 @@ def r207(ctx):
         ctx.bad(rid, f, "no value is stored for distances within half a box length")
 
 
+def r209(ctx, classes):
+    """Box lengths index Cartesian components. Arrays of vectors in the order-parameter code keep
+    one vector per row (`np.array([v1, v2, v3])`, `system.pos[idx]`), so the box lengths combine
+    with them along the last axis - shape (3,) or (1, 3). Box lengths reshaped to a column
+    (`[:, np.newaxis]`, `[:, None]`, `.reshape(3, 1)` / `(-1, 1)`) broadcast along the rows: vector
+    k is wrapped with length k in every component, which is invisible in a cubic box."""
+    rid = "R-20.9"
+    n = 0
+    for m, name, c, calc in classes:
+        fl = flow_of(calc)
+        cols = {}
+        for st in walk_local(calc):
+            if isinstance(st, ast.Assign) and len(st.targets) == 1 and isinstance(st.targets[0], ast.Name) and "box" in ast.unparse(st.value):
+                v = st.value
+                col = False
+                for x in ast.walk(v):
+                    if isinstance(x, ast.Subscript) and isinstance(x.slice, ast.Tuple) and len(x.slice.elts) == 2 and isinstance(x.slice.elts[0], ast.Slice) and (
+                            (isinstance(x.slice.elts[1], ast.Constant) and x.slice.elts[1].value is None) or ast.unparse(x.slice.elts[1]).endswith("newaxis")):
+                        col = True
+                    if isinstance(x, ast.Call) and last_name(x) == "reshape" and ast.unparse(x).replace(" ", "").endswith((",1)", ",1))")):
+                        col = True
+                if col:
+                    cols[st.targets[0].id] = st
+        n += 1
+        if not cols:
+            ctx.ok(rid, calc, f"{name}.calculate: box lengths are never reshaped to a column", nontrivial=False)
+            continue
+        for bname, bst in cols.items():
+            for x in walk_local(calc):
+                if not (isinstance(x, (ast.BinOp, ast.Compare, ast.AugAssign)) or (isinstance(x, ast.Call) and last_name(x) == "where")):
+                    continue
+                ops = [x.left, x.right] if isinstance(x, ast.BinOp) else ([x.left] + list(x.comparators) if isinstance(x, ast.Compare) else ([x.target, x.value] if isinstance(x, ast.AugAssign) else list(x.args)))
+                if not any(isinstance(o, ast.Name) and o.id == bname for o in ast.walk(ast.Tuple(elts=ops, ctx=ast.Load()))):
+                    continue
+                for o in ops:
+                    for nm in [y for y in ast.walk(o) if isinstance(y, ast.Name) and y.id != bname]:
+                        try:
+                            e2, _ = deref(fl, nm, fl.cfg.node_of(enclosing_stmt(x)))
+                        except Exception:
+                            continue
+                        rows_are_vectors = (isinstance(e2, ast.Call) and last_name(e2) in ("array", "asarray", "stack", "vstack") and e2.args and isinstance(e2.args[0], (ast.List, ast.Tuple)) and len(e2.args[0].elts) >= 2 and not all(isinstance(el, ast.Constant) for el in e2.args[0].elts)) \
+                            or (isinstance(e2, ast.Subscript) and ast.unparse(e2.value).endswith(".pos"))
+                        if rows_are_vectors:
+                            ctx.bad(rid, x, f"{name}.calculate combines `{nm.id}` (one vector per row: `{short(e2, 40)}`) with the box lengths reshaped to a column (`{short(bst, 50)}`): NumPy broadcasts the column along the rows, so vector k is wrapped with box length k in every component instead of component j with length j - shifting an atom by a box vector changes the order parameter in every non-cubic box", construct=f"{name}.calculate: column-shaped box lengths against row vectors")
+                            break
+                    else:
+                        continue
+                    break
+    if n < 4:
+        raise AnalysisError(f"R-20.9: only {n} order-parameter classes examined")
+
+
 def run(ctx):
     ctx.rule("R-20.6", "no `for` variable of the order-parameter code is read after its loop has ended", floor=2)
     ctx.rule("R-20.8", "distance, distance rate, dihedral and puckering are functions of translation-invariant, rotation-covariant vectors only (abstract interpretation of calculate() over geometric types: translation weight, vector/scalar/component kinds)", floor=4)
@@ -762,6 +814,8 @@ def run(ctx):
     classes = op_classes(ctx.tree)
     if len(classes) < 6:
         raise AnalysisError(f"C20: only {len(classes)} order-parameter classes with calculate() found (expected >= 6)")
+    ctx.rule("R-20.9", "box lengths combine with arrays of row vectors along the component axis (never reshaped to a column that broadcasts along the rows)", floor=4)
+    ctx.attempt(r209, ctx, classes)
     ctx.attempt(r201, ctx, classes)
     ctx.attempt(r202, ctx, classes)
     ctx.attempt(r203, ctx, classes)
@@ -774,6 +828,7 @@ def run(ctx):
 
 
 VARIANTS = [
+    B("c20-dihedral-box-broadcast-along-rows", ORDERP, "            box = np.array(system.box[:3])\n            vector1 = pbc_dist_coordinate(vector1, box)\n            vector2 = pbc_dist_coordinate(vector2, box)\n            vector3 = pbc_dist_coordinate(vector3, box)\n", "            bonds = np.array([vector1, vector2, vector3], dtype=float)\n            box = np.array(system.box[:3])[:, np.newaxis]\n            far = np.abs(bonds) > 0.5 * box\n            bonds -= np.rint(bonds / box) * np.where(far, box, 0.0)\n            vector1, vector2, vector3 = bonds\n", "R-20.9", control=True, why="seeded C20_l"),
     B("c20-flip-skipped-for-own-velocities", ENGBASE, "        if vel is not None:\n            system.vel = vel * -1.0 if system.vel_rev else vel", "        if vel is not None and vel is not system.vel:\n            system.vel = vel * -1.0 if system.vel_rev else vel", "R-20.5", control=True, why="seeded C20_k"),
     K("c20-keep-puckering-displacements-comprehension", ORDERP, "        z = np.zeros(6)\n        for i in range(6):\n            z[i] = np.dot(pos[i, :], n)\n", "        z = np.array([np.dot(pos[i, :], n) for i in range(6)], dtype=float)\n"),
     B("c20-puckering-displacements-raw-component", ORDERP, "        z = np.zeros(6)\n        for i in range(6):\n            z[i] = np.dot(pos[i, :], n)\n", "        z = np.array([pos[i, 2] for i in range(6)], dtype=float)\n", "R-20.8"),
